@@ -540,3 +540,114 @@ def strip_tmpl_bits(s):
     import re
     m = re.search(r'BigInt<(\d+)>', s)
     return m.group(1) if m else '0'
+
+
+# ------------------------------------------------------------------ Miller steps and line evaluation (C01, C08)
+def rule_miller_lines(ctx, cfg, prog, rule='R-POLY/line'):
+    """miller_doubling_step / miller_addition_step update the running twist point by the tangent / chord rule and return line
+    coefficients proportional (over the coordinate ring, i.e. by a factor in Fq2) to the tangent / chord line through the
+    untwisted points, and ell multiplies the accumulator by that line evaluated at P, placed at 1, v, v*w.
+
+    Derivation of the expected coefficients (M-type sextic twist E': y^2 = x^3 + b*xi, psi(x', y') = (x'/w^2, y'/w^3), w^2 = v,
+    w^6 = xi): the line through psi(R) with slope lambda'/w evaluated at P = (xP, yP), multiplied by w^3 (an element of the
+    proper subfield Fq4, removed by the final exponentiation like every Fq2 factor):
+        l*w^3 = (lambda'*x' - y') + (-lambda'*xP) * v + yP * v*w.
+    Tangent at Jacobian R = (X, Y, Z) (x' = X/Z^2, y' = Y/Z^3, lambda' = 3x'^2 / 2y'), denominators cleared:
+        (c : b : a) = (3X^3 - 2Y^2 : -3X^2 Z^2 : 2Y Z^3)
+    Chord through R and affine Q = (x2, y2), N = y2 Z^3 - Y, D = Z (x2 Z^2 - X):
+        (c : b : a) = (N x2 - D y2 : -N : D)."""
+    n = 0
+    gvn.EXTRA_LEAVES.clear()
+    gvn.EXTRA_LEAVES.add(NS + 'Fq2')
+    try:
+        ptype = type_of(prog, 'Projective<' + NS + 'Fq2>')
+        aff_name = [nme for nme in prog.records if nme.startswith(NS + 'Affine<' + NS + 'Fq2,')]
+        ctx.require(len(aff_name) == 1, 'Affine<Fq2,...> record not found')
+        atype = prog.types[aff_name[0]]
+        ttype = type_of(prog, 'MillerTriple')
+        one = ONE
+        two, three = one + one, one + one + one
+
+        def prop(got, want):
+            (c, b, a), (wc, wb, wa) = got, want
+            return (c * wb - b * wc).is_zero() and (c * wa - a * wc).is_zero() and (b * wa - a * wb).is_zero() and not a.is_zero() and not c.is_zero()
+
+        def aff(X, Y, Z):
+            z2 = Z * Z
+            return Frac(X, z2), Frac(Y, z2 * Z)
+
+        def feq(fa, fb):
+            return (fa.n * fb.d - fb.n * fa.d).is_zero()
+
+        for which in ('doubling', 'addition'):
+            f = the_fn(prog, NS + 'miller_' + which + '_step')
+            M = gvn.Machine(prog, curve_oracle_generic)
+            res = M.new_obj()
+            r = M.new_symbolic(ptype, 'R')
+            args = [(res, ()), (r, ())]
+            if which == 'addition':
+                q = M.new_symbolic(atype, 'Q')
+                args.append((q, ()))
+            try:
+                M.run_fn(f, None, args, {})
+                L = dict(M.object_leaves(res, ttype))
+                Rn = dict(M.object_leaves(r, ptype))
+            except gvn.Unsupported as e:
+                raise bm.AnalysisBroken('R-POLY/line cannot model miller_%s_step: %s' % (which, e))
+            X, Y, Z = Poly.var('R.x'), Poly.var('R.y'), Poly.var('R.z')
+            x1, y1 = aff(X, Y, Z)
+            if which == 'doubling':
+                lam = (Frac(three, one) * x1 * x1).div(Frac(two, one) * y1)
+                x3 = lam * lam - x1 - x1
+                y3 = lam * (x1 - x3) - y1
+                want = (three * X * X * X - two * Y * Y, -(three * X * X * Z * Z), two * Y * Z * Z * Z)
+            else:
+                x2, y2 = Poly.var('Q.x'), Poly.var('Q.y')
+                fx2, fy2 = Frac(x2, one), Frac(y2, one)
+                lam = (fy2 - y1).div(fx2 - x1)
+                x3 = lam * lam - x1 - fx2
+                y3 = lam * (x1 - x3) - y1
+                N = y2 * Z * Z * Z - Y
+                D = Z * (x2 * Z * Z - X)
+                want = (N * x2 - D * y2, -N, D)
+            gx, gy = aff(Rn[('x',)], Rn[('y',)], Rn[('z',)])
+            n += 1
+            ctx.ob(rule, feq(gx, x3) and feq(gy, y3), 'line|%s|point' % which, loc_str(f),
+                   'miller_%s_step: the updated running point is not the %s of the twist points (affine images, cross-multiplied)' %
+                   (which, 'tangent-rule double' if which == 'doubling' else 'chord-rule sum R + Q'), cfg=cfg,
+                   sample=dict(config=cfg, formula='miller_%s_step point update' % which))
+            got = (L[('c',)], L[('b',)], L[('a',)])
+            n += 1
+            ctx.ob(rule, prop(got, want), 'line|%s|coefficients' % which, loc_str(f),
+                   'miller_%s_step: the coefficient triple (c : b : a) is not proportional to the %s line through the untwisted point(s) '
+                   '%s' % (which, 'tangent' if which == 'doubling' else 'chord',
+                           '(3X^3-2Y^2 : -3X^2Z^2 : 2YZ^3)' if which == 'doubling' else '(N*x2 - D*y2 : -N : D)'), cfg=cfg,
+                   sample=dict(config=cfg, formula='miller_%s_step line coefficients' % which, check='pairwise cross products vanish'))
+    finally:
+        gvn.EXTRA_LEAVES.clear()
+    # ell: accumulator *= c + (b*xP) v + (a*yP) v w   (base-field leaves)
+    f = the_fn(prog, NS + 'ell')
+    g1_name = [nme for nme in prog.records if nme.startswith(NS + 'Affine<' + NS + 'Fq,')]
+    ctx.require(len(g1_name) == 1, 'Affine<Fq,...> record not found')
+    M = gvn.Machine(prog, curve_oracle_generic)
+    fo = M.new_symbolic(type_of(prog, 'Fq12'), 'f')
+    co = M.new_symbolic(type_of(prog, 'MillerTriple'), 'T')
+    po = M.new_symbolic(prog.types[g1_name[0]], 'P')
+    try:
+        M.run_fn(f, None, [(fo, ()), (co, ()), (po, ())], {})
+        got = M.object_leaves(fo, type_of(prog, 'Fq12'))
+    except gvn.Unsupported as e:
+        raise bm.AnalysisBroken('R-POLY/line cannot model ell: %s' % e)
+    xP, yP = Poly.var('P.x'), Poly.var('P.y')
+    a, b, c = sym_f2('T.a'), sym_f2('T.b'), sym_f2('T.c')
+    z2 = F2(ZERO, ZERO)
+    line = F12(F6(c, b.scale(xP), z2), F6(z2, a.scale(yP), z2))
+    n += 1
+    compare(ctx, cfg, rule, 'line|ell', loc_str(f), got, flat(sym_f12('f') * line),
+            'ell: accumulator times the line c + (b*xP) v + (a*yP) v*w')
+    # the factors dropped above (Fq2 scalars, w^3) die in the final exponentiation: (q^4 - 1) divides 3(q^12-1)/r
+    e = 3 * ((poly.Q ** 12 - 1) // bls.R_ORDER)
+    n += 1
+    ctx.ob(rule, (poly.Q ** 12 - 1) % bls.R_ORDER == 0 and e % (poly.Q ** 4 - 1) == 0, 'line|subfield-factors', loc_str(f),
+           'the final exponent is not a multiple of q^4 - 1: Fq2 / Fq4 factors of the line values would survive', cfg=cfg)
+    return n
